@@ -207,6 +207,13 @@ class Check:
             raise ToolError("trace validation of %s crashed (tool error)" % trace_path)
         self.transitions += r.generated
         self.states += r.distinct
+        # deviations the trace specification followed on purpose (named deviation actions count them in a register)
+        for k, v in r.prints:
+            if k == "DEVIATION":
+                try:
+                    self.deviations = max(getattr(self, "deviations", 0), int(v.strip()))
+                except ValueError:
+                    pass
         return accepted, rej, r
 
     # ------------------------------------------------------------------ verdicts
